@@ -1078,6 +1078,14 @@ class Interp:
         if sym_parts is None:
             return tuple(out)
         sym_parts.append(tuple(out))
+        if any(Q.is_nested(p) for p in sym_parts):
+            # `[*rows[:y], new_row, *rows[y + 1:]]` -- a display that splices rows of a nested list (held BY VALUE, see
+            # seqs.fresh_seq) with list objects given explicitly: those become rows of the new list by value too
+            # (seqs.row_value: the old reference is marked as moved, any later use of it is Unsupported -- row aliasing
+            # is not modelled), so that every element of the result is an immutable sequence value and reading an
+            # element at a symbolic index is a conditional term instead of a path fork.
+            # Cross-check against CPython: spec/xcheck_cases.py x_splice_rows.
+            sym_parts = [tuple(Q.row_value(x) if type(x) is LRef else x for x in p) if isinstance(p, tuple) else p for p in sym_parts]
         parts = [p for p in sym_parts if not (isinstance(p, tuple) and not p)]
         r = parts[0]
         for p in parts[1:]:
